@@ -4,6 +4,7 @@
 # 2. applies it to /repo, runs the quick checks of <verif-dir> (a copy of /verif may be given so that work in
 #    /verif itself is not disturbed), undoes it.  One line per step on stdout.
 set -u
+R="${SEED_REPO:-/repo}"
 vd="$1"; label="$2"; wt="$3"; patch="$4"; demo="$5"; shift 5
 echo "== $label"
 v=$("$vd/harness/seedverify.sh" "$wt" "$patch" "$demo" 2>&1 | tail -1)
@@ -12,10 +13,10 @@ case "$v" in
   "demo clean rc=0, mutated rc=1, tests: baseline-ok") ;;
   *) echo "$label NOT CONFIRMED"; exit 0;;
 esac
-if ! git -C /repo diff --quiet; then echo "/repo is dirty"; exit 2; fi
-git -C /repo apply "$patch" || { echo "$label patch does not apply to /repo"; exit 0; }
+if ! git -C "$R" diff --quiet; then echo "$R is dirty"; exit 2; fi
+git -C "$R" apply "$patch" || { echo "$label patch does not apply to /repo"; exit 0; }
 for p in "$@"; do
-  out=$(cd "$vd" && ./check "$p" ${TIER:-quick} 2>&1 | grep -E "VIOLATION|seed=|INFRA" | cut -c1-200 | tr '\n' ' ')
+  out=$(cd "$vd" && ZBOSS_REPO="$R" ./check "$p" ${TIER:-quick} 2>&1 | grep -E "VIOLATION|seed=|INFRA" | cut -c1-200 | tr '\n' ' ')
   echo "$label $p: $out"
 done
-git -C /repo checkout -- .
+git -C "$R" checkout -- .
